@@ -534,8 +534,10 @@ def relabel_checks(ctx, pairs):
             continue
         hyp = rep.get("hyp") == "1"
         rigid = rep.get("rigid") == "1"
+        cont = rep.get("cont") == "1"
         ctx.case(("relabelF", _key(A), tuple(rho), repr(kappa)), nontrivial=hyp,
-                 tags=tags + ["base-hyp" if hyp else "base-nohyp", "rigid" if rigid else "not-rigid"])
+                 tags=tags + ["base-hyp" if hyp else "base-nohyp", "rigid" if rigid else "not-rigid",
+                              "continuous-hyp" if cont else "coincident-or-nosep"])
         if rep.get("model") != "1":
             ctx.inconsistent(case, rep.get("model"), "Spec.relabelF differs from the harness's independent relabelling")
         if not hyp:
@@ -544,6 +546,9 @@ def relabel_checks(ctx, pairs):
             ctx.inconsistent(case, f"canon={rep.get('canon')}", "theorem C02_sort_canonical: sort(relabel A) = sort(A)")
         if rigid and rep.get("pass") != "1":
             ctx.inconsistent(case, f"pass={rep.get('pass')}", "theorem C02_no_false_fail_noise_free_partial: ladder passes in both roles")
+        if cont and (not rigid or rep.get("pass") != "1"):
+            ctx.inconsistent(case, f"rigid={rep.get('rigid')} pass={rep.get('pass')}",
+                             "theorems C02_rigid_without_coincident_points / C02_no_false_fail_continuous")
         sa, sb = impl_sorted(A), impl_sorted(B)
         if sa != sb or isinstance(sa, str):
             ctx.violation({"kind": "canon", "a": A, "b": B}, _diff(sa, sb), "identical sorted representations",
